@@ -6,11 +6,53 @@ import (
 	"fmt"
 
 	mux "github.com/cbeuw/Cloak/internal/multiplex"
+	"github.com/cbeuw/Cloak/internal/vrt"
+	"github.com/cbeuw/Cloak/internal/vrt/sync"
+	"github.com/cbeuw/Cloak/internal/vrt/time"
 	"github.com/cbeuw/Cloak/internal/vx"
 )
 
 // C19 (server part): every session of a user is handed that user's one valve, users never share one.
 func init() {
+	// simultaneous first connections of one limited user: whatever the schedule, all its sessions end
+	// up behind one valve (one record)
+	vx.Register(&vx.Scenario{Name: "panel.valve.sched", Prop: "C19", Run: func(c *vx.Ctx) *vx.Report {
+		sc := &vrt.Scenario{
+			Opt:      vrt.Options{HorizonNs: int64(20 * time.Second)},
+			Classify: deadlockIs("no-deadlock"),
+			Main: func() {
+				mm := newMemManager()
+				mm.add(uidOf(0), memUser{upRate: 1000, downRate: 2000, upCredit: 1 << 40, downCredit: 1 << 40, expiry: 1 << 40, cap: 10})
+				panel := MakeUserPanel(newEvManager(mm))
+				var wg sync.WaitGroup
+				sesh := make([]*mux.Session, 3)
+				for i := range sesh {
+					i := i
+					wg.Add(1)
+					vrt.Go(fmt.Sprintf("conn%d", i), func() {
+						defer wg.Done()
+						user, err := panel.GetUser(uidOf(0))
+						if err != nil {
+							vrt.Fail("harness", "GetUser: %v", err)
+						}
+						s, _, err := user.GetSession(uint32(i+1), plainSeshConfig())
+						if err != nil {
+							vrt.Fail("harness", "GetSession: %v", err)
+						}
+						sesh[i] = s
+					})
+				}
+				wg.Wait()
+				for i := 1; i < len(sesh); i++ {
+					if sesh[i].Valve != sesh[0].Valve {
+						vrt.Fail("one-valve-per-user", "sessions %d and 1 of the same user were given different valves: the user's allowance is multiplied", i+1)
+					}
+				}
+				vrt.Observe("records=%d", len(panel.activeUsers))
+			},
+		}
+		return vx.RunSched(c, sc, nil)
+	}})
 	vx.Register(&vx.Scenario{Name: "panel.valve", Prop: "C19", Run: func(c *vx.Ctx) *vx.Report {
 		rep := &vx.Report{Job: c.Job, Engine: "enum", Outcomes: map[string]int64{}, Exhaustive: true}
 		mm := newMemManager()
